@@ -1,6 +1,7 @@
 package rules
 
 import (
+	"fmt"
 	"go/ast"
 	"go/types"
 	"sort"
@@ -227,7 +228,7 @@ func c18MapOrder(p *chk.Prog, r *chk.Report) {
 			}
 		}
 	}
-	x.Check("coverage:loops", 0, a.Loops >= 10 && len(a.Funcs) >= 35, "", "fewer map-range loops / functions analysed than on the confirmed tree (12 loops, 42 functions)")
+	x.Check("coverage:loops", 0, a.Loops >= 10 && len(a.Funcs) >= 15, "", fmt.Sprintf("only %d map-range loops in %d functions were analysed (floor 10 loops, 15 functions after helper expansion; confirmed tree: 12 loops)", a.Loops, len(a.Funcs)))
 
 	y := r.Rule("TOTAL-ORDER", "A' comparator", "every comparator-based sort (sort.Slice etc.) that neutralises map order in that closure compares the elements themselves (x[i] < x[j]) or a unique name of the element (GetName(), .Name, .String()); a comparator on any other key leaves ties in map order", 0)
 	for _, u := range a.SortSanitisers {
